@@ -126,6 +126,7 @@ def instantiate(terms, max_sets=28):
 
   for r in roots:
     add(r, 0)
+  goal_closure = set(goal_ids)
   out = []
   qi = z3.Int('i!rsax')
   for x in rs.values():
@@ -138,6 +139,7 @@ def instantiate(terms, max_sets=28):
     c = card_fn(es)
     out.append(c(s) >= 0)
     out.append((c(s) == 0) == (s == z3.EmptySet(es)))
+    in_goal = s.get_id() in goal_closure and depth == 0
     if not z3.is_app(s):
       continue
     k = s.decl().kind()
@@ -170,6 +172,8 @@ def instantiate(terms, max_sets=28):
       add(a, depth + 1)
       add(b, depth + 1)
       add(i, depth + 1)
+      if in_goal:
+        goal_closure.update(z3.simplify(t_).get_id() for t_ in (a, b))
     elif k == z3.Z3_OP_SET_INTERSECT and len(ch) >= 2:
       a = ch[0]
       b = ch[1] if len(ch) == 2 else z3.SetIntersect(*ch[1:])
@@ -199,20 +203,23 @@ def instantiate(terms, max_sets=28):
     elif k == z3.Z3_OP_CONST_ARRAY:
       if z3.is_false(ch[0]):
         out.append(c(s) == 0)
-  sets = [v[0] for v in ids.values()]
-  near = {k for k, v in ids.items() if v[1] <= 1}
-  for i, x in enumerate(sets):
-    for j, y in enumerate(sets):
+  # Monotonicity / equality lemmas only among the sets of the goal and their
+  # direct components (these implications are expensive for the solver);
+  # other instances can be supplied explicitly with card_mono().
+  cand = [v[0] for k, v in ids.items() if k in goal_closure][:8]
+  for i, x in enumerate(cand):
+    for j, y in enumerate(cand):
       if i == j or x.sort() != y.sort():
         continue
-      # subset/equality lemmas only for pairs that touch a set of the goal
-      # (or a direct component of one): keeps the instance count linear
-      if goal_ids and not (x.get_id() in goal_ids or y.get_id() in goal_ids):
-        if not (x.get_id() in near and y.get_id() in near and
-                len(near) <= 10):
-          continue
       c = card_fn(x.sort().domain())
       out.append(z3.Implies(z3.IsSubset(x, y), c(x) <= c(y)))
       if i < j:
         out.append(z3.Implies(z3.And(z3.IsSubset(x, y), c(x) == c(y)), x == y))
   return out
+
+
+def card_mono(a, b):
+  """A subset of a finite set has at most its cardinality (lemma instance)."""
+  c = card_fn(a.sort().domain())
+  return z3.And(z3.Implies(z3.IsSubset(a, b), c(a) <= c(b)),
+                z3.Implies(z3.And(z3.IsSubset(a, b), c(a) == c(b)), a == b))
